@@ -6,6 +6,13 @@ Definition body_eqb (a b : body) : bool :=
   match a, b with
   | BJson x, BJson y => json_eqb x y
   | BRaw x, BRaw y => str_eqb x y
+  | BOther, BRaw _ => true      (* XML / YAML text: outside the property, not compared *)
+  | _, _ => false
+  end.
+Definition render_eqb (a b : render) : bool :=
+  match a, b with
+  | RJson, RJson | RNoop, RNoop | RString, RString | RCollection, RCollection
+  | RXml, RXml | RYaml, RYaml => true
   | _, _ => false
   end.
 Definition reply_eqb (a b : reply) : bool :=
@@ -24,19 +31,26 @@ Definition outcome_eqb (a b : outcome) : bool :=
 (* flagged: the generator put the input under the signature of the recorded finding
    (noop-metadata-header-collision); the driver then looks at prop_ok only.  The flag must be
    the model's in_finding, so that no other input escapes the comparison. *)
-Inductive case := CCase (flagged : bool) (i : input) (observed : outcome).
+(* output / backends / acc: the endpoint's output_encoding, the encodings of its backends and
+   the request's Accept header: i_render i must be what the model of getRender selects *)
+Inductive case := CCase (flagged : bool) (output : string) (backends : list string) (acc : accept)
+                        (i : input) (observed : outcome).
 
 Definition check_case (c : case) : bool * bool :=
   match c with
-  | CCase flagged i obs =>
+  | CCase flagged output backends acc i obs =>
       let m := handler i in   (* in_finding i, with the model's outcome computed once *)
       let inf := negb (pair_eqb (hdr_pair m) (hdr_pair (handler (strip_meta i)))) in
-      (input_wf i && Bool.eqb flagged inf && outcome_eqb m obs, spec_out_b i obs)
+      (input_wf i && render_eqb (render_of_config (i_impl i) output backends acc) (i_render i) &&
+       Bool.eqb flagged inf && outcome_eqb m obs &&
+       (* the writer-operation model of the same handler agrees as well *)
+       outcome_eqb (handler_ops i) obs, spec_out_b i obs)
   end.
 
-Lemma check_case_in_finding flagged i obs :
-  fst (check_case (CCase flagged i obs)) =
-  input_wf i && Bool.eqb flagged (in_finding i) && outcome_eqb (handler i) obs.
+Lemma check_case_in_finding flagged output backends acc i obs :
+  fst (check_case (CCase flagged output backends acc i obs)) =
+  input_wf i && render_eqb (render_of_config (i_impl i) output backends acc) (i_render i) &&
+  Bool.eqb flagged (in_finding i) && outcome_eqb (handler i) obs && outcome_eqb (handler_ops i) obs.
 Proof. reflexivity. Qed.
 
 Fixpoint failing (i : nat) (cs : list case) : list verdict :=
